@@ -6,6 +6,19 @@ pid, wt = sys.argv[1], sys.argv[2]
 n = sys.argv[3] if len(sys.argv) > 3 else "3"
 p = next(json.loads(l) for l in open(os.path.join(V, "properties.jsonl")) if json.loads(l)["id"] == pid)
 t = open(os.path.join(V, "lib", "seed_prompt.txt")).read()
+avoid = []
+import glob, re
+for d in sorted(glob.glob(os.path.join(V, "seeded", pid + "-*"))):
+    mp = os.path.join(d, "meta.json")
+    if os.path.exists(mp):
+        m = json.load(open(mp))
+        avoid.append("- " + re.sub(r"\s+", " ", str(m.get("summary", "")))[:400])
+extra = ""
+if avoid and os.environ.get("SEED_AVOID", "1") != "0":
+    extra = ("\n\nOther engineers have ALREADY seeded the following changes for this property; do not repeat them or close variants "
+             "(same site and same mechanism). Look for different code sites, different clauses of the statement, and subtler triggers "
+             "(longer operation sequences, rarer configurations, interactions between two features, boundary arithmetic):\n" + "\n".join(avoid) + "\n")
+t = t.replace("Do not touch *_test.go files of the project in the change itself", extra + "\nDo not touch *_test.go files of the project in the change itself", 1) if extra else t
 print(t.replace("{WT}", wt).replace("{TITLE}", p["title"]).replace("{STATEMENT}", p["statement"])
       .replace("{QUANT}", p["quantifier"]["text"]).replace("{FILES}", ", ".join(p["anchors"]["files"]))
       .replace("{N}", n).replace("{ID}", pid))
